@@ -8,7 +8,7 @@ import re
 from .lib.reachrule import ReachRule
 from .audit.C08 import AUDIT
 
-CONFIGS_QUICK = ["A"]
+CONFIGS_QUICK = ["A", "R"]
 CONFIGS_THOROUGH = ["A", "R", "NOAPI"]
 
 ROOT_PATS = [
